@@ -1,4 +1,6 @@
 import PymocaVerif.Lemmas.FlattenEx
+import PymocaVerif.Lemmas.FlattenFuel
+import PymocaVerif.Lemmas.FlattenSpell
 /-!
 # C07 — hierarchical flattening instantiates every component once
 
@@ -18,6 +20,10 @@ flattening succeeds,
   (`eqs_are_instance_eqs`), where renaming replaces a reference `r` written in instance `P` by
   the flat variable `P ++ r` iff that is a flat variable and leaves it alone otherwise
   (`reference_renaming`).
+
+Also: the result does not depend on the fuel once it suffices (`fuel_irrelevant`), and type names
+are looked up lexically — innermost enclosing class that declares the first identifier
+(`lookup_is_lexical`, about stage 1, `Model/FlattenSrc.lean`).
 
 Paths are lists of identifiers; the driver prints them dotted (identifiers contain no dot).
 -/
@@ -163,5 +169,26 @@ example : flattenF 6 exLib ["M"] = .ok exFlat ∧
     exFlat.eqs[2]? = some (.fref ["b"] [], .fref ["lb", "u"] []) ∧
     exFlat.eqs[3]? = some (.fref ["y"] [], .bin "+" (.fref ["l2", "u"] [1]) (.fref ["b"] [])) :=
   ⟨exFlat_ok, by decide +kernel, by decide +kernel⟩
+
+/-! ## fuel and lookup -/
+
+/-- Fuel only bounds the recursion: a successful flattening is reproduced with any larger fuel, so
+    all statements above are about one flat model per (library, target). -/
+theorem fuel_irrelevant {f f' : Nat} {lib : Lib} {t : Path} {m : FlatModel} (h : flattenF f lib t = .ok m)
+    (hle : f ≤ f') : flattenF f' lib t = .ok m := flattenF_fuel_le h hle
+
+example : flattenF 6 exLib ["M"] = .ok exFlat ∧ flattenF 9 exLib ["M"] = .ok exFlat :=
+  ⟨exFlat_ok, flattenF_fuel_le exFlat_ok (by decide)⟩
+
+/-- Type names are resolved lexically: a successful lookup of `h.t` from the class with path `scope`
+    gives the class `s.h.t` for the *longest* prefix `s` of `scope` (innermost enclosing class, the
+    class itself included, the root last) that declares a class named `h`. -/
+theorem lookup_is_lexical {paths : List Path} {scope : Path} {h : Name} {t : List Name} {p : Path}
+    (hr : resolveRef paths scope (h :: t) = .ok (.cls p)) :
+    ∃ j, j ≤ scope.length ∧ p = scope.take j ++ h :: t ∧ p ∈ paths ∧ scope.take j ++ [h] ∈ paths ∧
+      ∀ j', j < j' → j' ≤ scope.length → scope.take j' ++ [h] ∉ paths := resolveRef_lexical hr
+
+example : resolveRef [["P"], ["P", "A"], ["P", "Q"], ["P", "Q", "B"], ["A"]] ["P", "Q", "B"] ["A"] = .ok (.cls ["P", "A"]) := by
+  decide
 
 end PymocaVerif.Flatten
